@@ -3,7 +3,7 @@
 import json, os, shutil, sys
 P, K, needs, result = sys.argv[1:5]
 src = f"/tmp/mut/out/{P}"
-dst = f"/verif/seeded/{P}-m{K}"
+dst = f"/verif/seeded/{P}-{os.environ.get('SUFFIX','m')}{K}"
 os.makedirs(dst, exist_ok=True)
 shutil.copy(f"{src}/m{K}.diff", f"{dst}/patch.diff")
 shutil.copy(f"{src}/m{K}_demo_test.go", f"{dst}/demo_test.go")
@@ -12,6 +12,7 @@ if os.path.exists(f"{src}/m{K}.md"):
 demo_dir = open(f"{dst}/demo_test.go").readline().replace("// dir:", "").strip()
 meta = {
     "property": P,
+    "round": int(os.environ.get("ROUND", "1")),
     "breaks": open(f"{dst}/author_note.md").read()[:600] if os.path.exists(f"{dst}/author_note.md") else "",
     "needs_to_manifest": needs,
     "demo": {"file": "demo_test.go", "place_in": demo_dir, "fails_with_patch": True, "passes_without": True},
